@@ -40,8 +40,8 @@ Section WlThm.
   Variable th_push th_pop : TS -> TS.
   Variable FUEL : nat.
   Hypothesis Hth : theory_contract T th_propagate th_check.
-  Hypothesis th_quiet_p : forall ts a dl p, snd (fst (th_propagate ts a dl p)) = [] /\ snd (th_propagate ts a dl p) = None.
-  Hypothesis th_quiet_c : forall ts a dl, snd (fst (th_check ts a dl)) = [] /\ snd (th_check ts a dl) = None.
+  Hypothesis th_lemmas_wl : forall (s : @state TS) p, Inv T s -> In p (trail s) -> nth (fst p) (level s) 0 = decision_level s ->
+    lemmas_wl_ok s (snd (fst (th_propagate (thst s) (assigns s) (decision_level s) p))).
   Notation state := (@state TS).
   Let sort_perm := proj1 Hsort.
   Let sort_sorted := proj2 Hsort.
@@ -62,17 +62,17 @@ Section WlThm.
     - destruct (shrink_ok s c (lits_of s c) ls); rewrite IH; reflexivity.
   Qed.
 
-  Lemma root_conflict_root : forall (s : state), root_conflict s = true -> root_level s = true.
-  Proof. intros s H. unfold root_conflict in H. apply andb_true_iff in H. apply H. Qed.
+  Lemma root_conflict_root : forall (s : state), root_dead s = true -> root_level s = true.
+  Proof. intros s H. apply (root_dead_root s H). Qed.
 
   Lemma WL_simplify_db : forall (s s' : state) r, Inv T s -> WLfull s -> bound s -> root_level s = true ->
-    simplify_db s = (s', r) -> ub s' = ub s /\ ((r = RFalse /\ root_conflict s' = true) \/ WLfull s').
+    simplify_db s = (s', r) -> ub s' = ub s /\ ((r = RFalse /\ root_dead s' = true) \/ WLfull s').
   Proof.
     intros s s' r I W Bd Hroot E. unfold SatCore.simplify_db in E.
     destruct (SatCore.propagate sort th_propagate th_check th_pop FUEL s) as [s1 r1] eqn:Ep.
     destruct (propagate_inv T sort sort_perm th_propagate th_check th_pop FUEL thp_ok thc_ok s s1 r1 I Ep) as [I1 (P1 & P2 & [k P3] & P4 & P5 & P6)].
     pose proof (propagate_f_ubs T sort Hsort th_propagate th_check th_pop Hth FUEL s s1 r1 I Ep) as U1.
-    destruct (WL_propagate_f T sort Hsort sort_key_sorted th_propagate th_check th_pop th_quiet_p th_quiet_c FUEL s s1 r1 I W Ep) as [Q1 Q2].
+    destruct (WL_propagate_f T sort Hsort sort_key_sorted th_propagate th_check th_pop Hth th_lemmas_wl FUEL s s1 r1 I W Ep) as [Q1 Q2].
     destruct (propagate_f_dbstep T sort Hsort th_propagate th_check th_pop Hth FUEL s s1 r1 I Ep Bd) as (_ & _ & Bd1).
     destruct r1; inversion E; subst.
     - assert (Hr1 : root_level s1 = true).
@@ -106,19 +106,19 @@ Section WlThm.
       apply (WL_new_clause T sort Hsort s l s' b I W Hroot (lits_in_range_true s l Hr) En).
     - apply andb_true_iff in Hpre. destruct Hpre as [Hpre _]. apply andb_true_iff in Hpre. destruct Hpre as [Hq Hr].
       apply Nat.ltb_lt in Hr.
-      destruct (WL_assume_gen T sort Hsort sort_key_sorted th_propagate th_check th_push th_pop FUEL th_quiet_p th_quiet_c
+      destruct (WL_assume_gen T sort Hsort sort_key_sorted th_propagate th_check th_push th_pop FUEL Hth th_lemmas_wl
                   s s' p r I W (qempty_true s Hq) Hr E) as [[-> Hc]|W']; auto.
       exfalso. rewrite (root_conflict_root s' Hc) in Hdead. discriminate.
-    - destruct (WL_propagate_f T sort Hsort sort_key_sorted th_propagate th_check th_pop th_quiet_p th_quiet_c FUEL s s' r I W E) as [Q1 Q2].
+    - destruct (WL_propagate_f T sort Hsort sort_key_sorted th_propagate th_check th_pop Hth th_lemmas_wl FUEL s s' r I W E) as [Q1 Q2].
       destruct r; try (apply Q1; discriminate). exfalso. rewrite (root_conflict_root s' (Q2 eq_refl)) in Hdead. discriminate.
     - apply andb_true_iff in Hpre. destruct Hpre as [Hnr Hq]. inversion E; subst. apply negb_true_iff in Hnr.
       apply (WL_op_pop T th_pop s I W (qempty_true s Hq) Hnr).
     - apply andb_true_iff in Hpre. destruct Hpre as [Hq Hok].
-      destruct (WL_next T sort Hsort sort_key_sorted th_propagate th_check th_pop FUEL th_quiet_p th_quiet_c
+      destruct (WL_next T sort Hsort sort_key_sorted th_propagate th_check th_pop FUEL Hth th_lemmas_wl
                   s s' r I W (qempty_true s Hq) Hok E) as [[-> Hc]|W']; auto.
       exfalso. rewrite Hc in Hdead. discriminate.
     - apply andb_true_iff in Hpre. destruct Hpre as [Hq Hr]. unfold check in E.
-      destruct (WL_check_loop T sort Hsort sort_key_sorted th_propagate th_check th_push th_pop FUEL Hth th_quiet_p th_quiet_c
+      destruct (WL_check_loop T sort Hsort sort_key_sorted th_propagate th_check th_push th_pop FUEL Hth th_lemmas_wl
                   l s (decision_level s) s' r I W (qempty_true s Hq) (lits_in_range_true s l Hr) E) as [[-> Hc]|W']; auto.
       exfalso. rewrite Hc in Hdead. discriminate.
     - destruct (WL_simplify_db s s' r I W Bd Hpre E) as [_ [[-> Hc]|W']]; auto.
@@ -188,6 +188,51 @@ Section WlThm.
   Qed.
 End WlThm.
 
+(* theories that record lemmas and report conflicts: theory_contract + the named clause th_lemmas_wl *)
+Section WlClosedLemmas.
+  Context {TS : Type}.
+  Variables (T : asg -> Prop) (sort : (lit -> lit -> bool) -> list lit -> list lit).
+  Variables (thp : TS -> list lbool -> nat -> lit -> TS * list (list lit) * option (list lit))
+            (thc : TS -> list lbool -> nat -> TS * list (list lit) * option (list lit)) (thpush thpop : TS -> TS) (FUEL : nat).
+  Hypothesis Hsort : sort_contract sort.
+  Hypothesis sort_key_sorted : forall (key : lit -> nat) l,
+    StronglySorted (fun a b => key b <= key a) (sort (fun a b => Nat.ltb (key b) (key a)) l).
+  Hypothesis Hth : theory_contract T thp thc.
+  Hypothesis th_lemmas_wl : forall (s : @state TS) p, Inv T s -> In p (trail s) -> nth (fst p) (level s) 0 = decision_level s ->
+    lemmas_wl_ok s (snd (fst (thp (thst s) (assigns s) (decision_level s) p))).
+  Notation run := (run sort thp thc thpush thpop FUEL).
+  Notation run_ok := (run_ok sort thp thc thpush thpop FUEL).
+
+  Theorem c07_no_ub_lemmas : forall ops ts, run_ok ops (init ts) = true -> ub (run ops (init ts)) = false.
+  Proof.
+    intros ops ts Hok.
+    apply (run_wl_no_ub T sort Hsort sort_key_sorted thp thc thpush thpop FUEL Hth th_lemmas_wl ops (init ts)
+             (init_inv T ts) (init_db ts) (init_wl ts) eq_refl Hok).
+  Qed.
+
+  Theorem c07_watch_invariant_lemmas : forall ops o ts, run_ok (ops ++ [o]) (init ts) = true ->
+    WL (decision_level (run ops (init ts))) None (run ops (init ts)).
+  Proof.
+    intros ops o ts Hok.
+    apply (run_wl T sort Hsort sort_key_sorted thp thc thpush thpop FUEL Hth th_lemmas_wl ops o (init ts)
+             (init_inv T ts) (init_db ts) (init_wl ts) eq_refl Hok).
+  Qed.
+
+  Theorem c07_total_assignment_lemmas : forall ops o ts, run_ok (ops ++ [o]) (init ts) = true ->
+    prop_q (run ops (init ts)) = [] ->
+    (forall v, v < nvars (run ops (init ts)) -> value_var (run ops (init ts)) v <> LU) ->
+    forall c, In c (added (log (run ops (init ts)))) -> sat_clause (asg_of (run ops (init ts))) c.
+  Proof.
+    intros ops o ts Hok Hq Hall.
+    destruct (run_wl T sort Hsort sort_key_sorted thp thc thpush thpop FUEL Hth th_lemmas_wl ops o (init ts)
+             (init_inv T ts) (init_db ts) (init_wl ts) eq_refl Hok) as (Hub & I & _ & W).
+    apply (c07_total_assignment_satisfies_added_clauses_partial T sort thp thc thpush thpop FUEL Hsort Hth ops o ts Hok Hub).
+    intros c Hc. apply (WL_live_clause_true T _ c I W Hq Hc).
+    intros l Hl Hv. apply (Hall (fst l)). apply (i_cls_range T _ (proj1 I) c l Hl).
+    unfold value_lit in Hv. destruct (value_var (run ops (init ts)) (fst l)); auto; destruct (snd l); discriminate.
+  Qed.
+End WlClosedLemmas.
+
 Section WlClosed.
   Context {TS : Type}.
   Variables (T : asg -> Prop) (sort : (lit -> lit -> bool) -> list lit -> list lit).
@@ -203,37 +248,25 @@ Section WlClosed.
   Notation run := (run sort thp thc thpush thpop FUEL).
   Notation run_ok := (run_ok sort thp thc thpush thpop FUEL).
 
+  Lemma quiet_lemmas_wl : forall (s : @state TS) p, Inv T s -> In p (trail s) -> nth (fst p) (level s) 0 = decision_level s ->
+    lemmas_wl_ok s (snd (fst (thp (thst s) (assigns s) (decision_level s) p))).
+  Proof. intros s p _ _ _. rewrite (proj1 (th_quiet_p (thst s) (assigns s) (decision_level s) p)). split; constructor. Qed.
+
   (* no history inside the documented preconditions reaches undefined behaviour, simplify_db included *)
   Theorem c07_no_ub : forall ops ts, run_ok ops (init ts) = true -> ub (run ops (init ts)) = false.
-  Proof.
-    intros ops ts Hok.
-    apply (run_wl_no_ub T sort Hsort sort_key_sorted thp thc thpush thpop FUEL Hth th_quiet_p th_quiet_c ops (init ts)
-             (init_inv T ts) (init_db ts) (init_wl ts) eq_refl Hok).
-  Qed.
+  Proof. pose proof th_quiet_c as Hquiet_check. exact (c07_no_ub_lemmas T sort thp thc thpush thpop FUEL Hsort sort_key_sorted Hth quiet_lemmas_wl). Qed.
 
   (* the two-watched-literal invariant holds after every history that can be continued *)
   Theorem c07_watch_invariant : forall ops o ts, run_ok (ops ++ [o]) (init ts) = true ->
     WL (decision_level (run ops (init ts))) None (run ops (init ts)).
-  Proof.
-    intros ops o ts Hok.
-    apply (run_wl T sort Hsort sort_key_sorted thp thc thpush thpop FUEL Hth th_quiet_p th_quiet_c ops o (init ts)
-             (init_inv T ts) (init_db ts) (init_wl ts) eq_refl Hok).
-  Qed.
+  Proof. pose proof th_quiet_c as Hquiet_check. exact (c07_watch_invariant_lemmas T sort thp thc thpush thpop FUEL Hsort sort_key_sorted Hth quiet_lemmas_wl). Qed.
 
   (* (v): nothing left to propagate and every variable assigned: every clause ever given to new_clause is satisfied *)
   Theorem c07_total_assignment_satisfies_added_clauses : forall ops o ts, run_ok (ops ++ [o]) (init ts) = true ->
     prop_q (run ops (init ts)) = [] ->
     (forall v, v < nvars (run ops (init ts)) -> value_var (run ops (init ts)) v <> LU) ->
     forall c, In c (added (log (run ops (init ts)))) -> sat_clause (asg_of (run ops (init ts))) c.
-  Proof.
-    intros ops o ts Hok Hq Hall.
-    destruct (run_wl T sort Hsort sort_key_sorted thp thc thpush thpop FUEL Hth th_quiet_p th_quiet_c ops o (init ts)
-             (init_inv T ts) (init_db ts) (init_wl ts) eq_refl Hok) as (Hub & I & _ & W).
-    apply (c07_total_assignment_satisfies_added_clauses_partial T sort thp thc thpush thpop FUEL Hsort Hth ops o ts Hok Hub).
-    intros c Hc. apply (WL_live_clause_true T _ c I W Hq Hc).
-    intros l Hl Hv. apply (Hall (fst l)). apply (i_cls_range T _ (proj1 I) c l Hl).
-    unfold value_lit in Hv. destruct (value_var (run ops (init ts)) (fst l)); auto; destruct (snd l); discriminate.
-  Qed.
+  Proof. pose proof th_quiet_c as Hquiet_check. exact (c07_total_assignment_lemmas T sort thp thc thpush thpop FUEL Hsort sort_key_sorted Hth quiet_lemmas_wl). Qed.
 End WlClosed.
 
 (* the instance run by the differential harness *)
